@@ -21,16 +21,28 @@ def evidence_table():
 
 
 def seed_table():
-    rows = ["| seeded change | breaks | detected by (quick checks run against it) | baseline passes with it | demo clean / patched |",
-            "|---|---|---|---|---|"]
+    audit = {}
+    ap = os.path.join(V, "seeded", "AUDIT.json")
+    head = "?"
+    if os.path.exists(ap):
+        a = json.load(open(ap))
+        head = a.get("repo_head")
+        audit = {r["seed"]: r for r in a.get("results", [])}
+    rows = [f"(last audit: `tools/seedaudit.py` at /repo {head}; ✓ = the quick check exits 1 with a VIOLATION line on the patched tree)", "",
+            "| seeded change | breaks | own check (last audit) | other checks run when it was kept | baseline passes with it | demo clean / patched |",
+            "|---|---|---|---|---|---|"]
     for d in sorted(glob.glob(os.path.join(V, "seeded", "*"))):
         mp = os.path.join(d, "meta.json")
         if not os.path.exists(mp):
             continue
         m = json.load(open(mp))
-        ran = ", ".join(f"{c}{'✓' if c in m.get('detected_by', []) else '✗'}" for c in m.get("checks_run", {}))
+        sid = os.path.basename(d)
+        prop = m.get("breaks_property")
+        ran = ", ".join(f"{c}{'✓' if c in m.get('detected_by', []) else '✗'}" for c in m.get("checks_run", {}) if c != prop) or "—"
+        au = audit.get(sid, {})
+        own = "✓" if au.get("detected_by_own_check") else ("✗" if au else "not audited")
         cf = m.get("confirmed", {})
-        rows.append(f"| {os.path.basename(d)} | {m.get('breaks_property')} | {ran} | {cf.get('baseline_80_tests_pass_with_patch')} | "
+        rows.append(f"| {sid} | {prop} | {own} | {ran} | {cf.get('baseline_80_tests_pass_with_patch')} | "
                     f"{cf.get('demo_exit_on_clean_tree')} / {cf.get('demo_exit_on_patched_tree')} |")
     return "\n".join(rows)
 
